@@ -149,6 +149,18 @@ pub fn builder_plans(ctx: &mut Ctx, opts: &RunOpts) {
         vec![BEntry::AddRaw(k("ed25519"), vec![0xc0])],
         vec![BEntry::AddRaw(k("secp256k1"), vec![0xc0])],
         vec![BEntry::Add(k("secp256k1"), Val::B(vec![3; 33]))],
+        vec![BEntry::Add(k("secp256k1"), Val::B(crate::util::unhex("03ca634cae0d49acb401d8a4c6b6fe8c55b70d115bf400769cc1400f3258cd3138").unwrap()))],
+        vec![BEntry::Add(k("secp256k1"), Val::B({
+            let c = crate::util::unhex("03ca634cae0d49acb401d8a4c6b6fe8c55b70d115bf400769cc1400f3258cd3138").unwrap();
+            match crate::refimpl::sig::secp_normalise(&c) {
+                Some((_, u)) => {
+                    let mut h = vec![6 + (u[63] & 1)];
+                    h.extend_from_slice(&u);
+                    h
+                }
+                None => c,
+            }
+        }))],
         vec![BEntry::Add(k("ed25519"), Val::B(vec![3; 5]))],
         vec![BEntry::Add(k("toy"), Val::B(vec![3; 5]))],
     ];
